@@ -1,2 +1,161 @@
-(* C18 - placeholder while the proofs are being built *)
-From PsdV Require Import Base.Prelude Engine.Model Engine.Corr.
+(* C18 - text engine data round-trips (psd_tools/psd/engine_data.py), both layouts.
+   Only the property theorems; every proof is [exact] of a lemma of Engine/Proofs*.v.
+   All statements are unbounded: every byte list, every tree of any depth and width, every integer,
+   every decimal magnitude.  Model: Engine/Model.v (tied to the code by harness/vh/c18.py). *)
+From PsdV Require Import Base.Prelude Engine.Model Engine.Corr
+  Engine.ProofsLex Engine.ProofsLeaf Engine.ProofsParse Engine.ProofsWrite Engine.ProofsFuel.
+
+(* ------------------------------------------------------------------ strings *)
+(* 1. the three sequential un-escaping replaces undo the three sequential escaping replaces, for
+      every byte string (no assumption on the bytes: any UTF-16 content, any characters) *)
+Theorem unescape_escape : forall bs, unescape (escape bs) = bs.
+Proof. exact ProofsLex.unescape_escape. Qed.
+Print Assumptions unescape_escape.
+
+(* 2. the tokenizer's end scan returns exactly the escaped string, whatever its content and whatever follows *)
+Theorem string_end_found : forall p rest, scan_end (escape p ++ 41 :: rest) = Some (escape p, rest).
+Proof. exact ProofsLex.scan_end_escape. Qed.
+Print Assumptions string_end_found.
+
+Theorem string_token_found : forall p rest,
+  tokenize ([40;254;255] ++ escape p ++ [41] ++ rest) = (KStr, [40;254;255] ++ escape p ++ [41]) :: tokenize rest.
+Proof. exact ProofsWrite.string_token_found. Qed.
+Print Assumptions string_token_found.
+
+(* 3. a String element is read back from its token: every UTF-16BE payload (paired surrogates) *)
+Theorem string_roundtrip : forall p, utf16_ok p = true ->
+  leaf_of KStr (leaf_bytes (TStr p)) = Ok (TStr p).
+Proof. exact ProofsLeaf.string_read. Qed.
+Print Assumptions string_roundtrip.
+(* U+015C, "\", "a\", U+5C5C, ")(" U+2829 U+295C: UTF-16BE forms full of 0x5C / 0x28 / 0x29 *)
+Example string_roundtrip_hyp :
+  utf16_ok [1;92] = true /\ utf16_ok [0;92] = true /\ utf16_ok [0;97;0;92] = true /\ utf16_ok [92;92] = true /\
+  utf16_ok [0;41;0;40;40;41;41;92] = true /\ utf16_ok [216;61;222;0] = true.
+Proof. repeat split. Qed.
+
+(* before commit aadd31f (finding F-C18-1) the end search was "first ')' not preceded by '\'":
+   that search does not find the end of a string whose UTF-16BE form ends in 0x5C (here U+015C) *)
+Theorem old_end_search_refuted : exists p,
+  utf16_ok p = true /\
+  scan_old ([40;254;255] ++ escape p ++ [41]) <> Some ([40;254;255] ++ escape p ++ [41], []).
+Proof. exists [1;92]. split; [reflexivity|]. vm_compute. discriminate. Qed.
+Print Assumptions old_end_search_refuted.
+
+(* ------------------------------------------------------------------ numbers *)
+(* 4. Integer: "%d" then int() is the identity on every integer *)
+Theorem int_text_roundtrip : forall z, classify (int_bytes z) = KNum /\ int_of_bytes (int_bytes z) = z.
+Proof. intros z. split; [apply ProofsLeaf.int_classify|apply ProofsLeaf.int_roundtrip]. Qed.
+Print Assumptions int_text_roundtrip.
+
+(* 5. Float: the text made from '%.8f' (zeros stripped, "0." shortened to ".") is a decimal token and is read
+      back to the same 8 places, for every sign and magnitude *)
+Theorem float_text_roundtrip : forall neg mag, 0 <= mag ->
+  classify (float_bytes (Fl neg mag false)) = KDec /\
+  float_of_bytes (float_bytes (Fl neg mag false)) = Fl neg mag false.
+Proof.
+  intros neg mag H. split; [apply (ProofsLeaf.float_re_dec neg mag H)|apply (ProofsLeaf.float_roundtrip neg mag H)].
+Qed.
+Print Assumptions float_text_roundtrip.
+Example float_text_roundtrip_hyp :
+  float_bytes (Fl true 50000000 false) = [45;46;53] /\ float_bytes (Fl false 10000000000000000000000000000 false) =
+  [49;48;48;48;48;48;48;48;48;48;48;48;48;48;48;48;48;48;48;48;48;46;48].
+Proof. split; vm_compute; reflexivity. Qed.
+(* a non-zero value below 5e-9 is written ".0" / "-.0" and read back as zero: equal to the 8 places kept *)
+Theorem float_tiny_roundtrip : forall neg, float_of_bytes (float_bytes (Fl neg 0 true)) = Fl neg 0 false.
+Proof. exact ProofsLeaf.float_tiny_roundtrip. Qed.
+Print Assumptions float_tiny_roundtrip.
+
+(* ------------------------------------------------------------------ tokens of the written text *)
+(* 6. the text written for a tree tokenizes to exactly the tree's token sequence (only white space is
+      not a token), in both layouts, at any depth *)
+Theorem tokens_roundtrip_indented : forall d,
+  wf_tree (TDict d) = true -> lists_ok (Some O) (TDict d) = true ->
+  tokenize (wv (Some O) (TDict d)) = vtoks (TDict d).
+Proof. exact ProofsWrite.tokens_of_indented. Qed.
+Print Assumptions tokens_roundtrip_indented.
+
+Theorem tokens_roundtrip_compact : forall d,
+  wf_tree (TDict d) = true -> tokenize (wentries None d) = etoks d.
+Proof. exact ProofsWrite.tokens_of_compact. Qed.
+Print Assumptions tokens_roundtrip_compact.
+
+(* ------------------------------------------------------------------ the round trip *)
+(* 7. EngineData (indented, with container): every well-formed tree whose indented Lists hold Dicts only
+      is written without error and read back equal -- any depth, any width *)
+Theorem parse_print_indented : forall d,
+  wf_tree (TDict d) = true -> lists_ok (Some O) (TDict d) = true ->
+  exists bs, write Indented d = Ok bs /\ parse bs = Ok d.
+Proof. exact ProofsWrite.parse_write_indented. Qed.
+Print Assumptions parse_print_indented.
+
+(* 8. EngineData2 (compact, no container): every well-formed tree, no condition on Lists *)
+Theorem parse_print_compact : forall d,
+  wf_tree (TDict d) = true -> exists bs, write Compact d = Ok bs /\ parse bs = Ok d.
+Proof. exact ProofsWrite.parse_write_compact. Qed.
+Print Assumptions parse_print_compact.
+
+(* the hypotheses are satisfiable by a tree with every element class, nesting through Dicts and Lists, strings
+   ending in byte 0x5C, a List of Dicts (indented), a List holding a Dict after a number (compact inside) *)
+Definition sample : kvs :=
+  [([69;110], TDict [([84], TStr [1;92;0;40;0;41;0;92]); ([118], TList [TFloat (Fl true 50000000 false); TInt (-7); TInt 0]);
+                     ([114], TList [TDict [([97], TBool true)]; TDict []]);
+                     ([109], TList [TInt 5; TDict [([120], TList [TList []; TList [TStr []]])]]);
+                     ([116], TTag [40;104;119;105;100;41]); ([112], TProp [95;57])]);
+   ([48], TList [])].
+Example parse_print_hyp : wf_tree (TDict sample) = true /\ lists_ok (Some O) (TDict sample) = true.
+Proof. split; vm_compute; reflexivity. Qed.
+Example parse_print_sample :
+  (exists bs, write Indented sample = Ok bs /\ parse bs = Ok sample) /\
+  (exists bs, write Compact sample = Ok bs /\ parse bs = Ok sample).
+Proof. split; eexists; split; vm_compute; reflexivity. Qed.
+
+(* 9. what was written is rewritten byte for byte after being read (fixture blobs; the engine data embedded in a
+      type layer, which TypeToolObjectSetting parses on read and writes back through the same writer) *)
+Theorem rewrite_unchanged : forall ly d bs, wf_tree (TDict d) = true ->
+  (ly = Indented -> lists_ok (Some O) (TDict d) = true) ->
+  write ly d = Ok bs ->
+  match parse bs with Ok d' => write ly d' | Err e => Err e end = Ok bs.
+Proof. exact ProofsWrite.rewrite_unchanged. Qed.
+Print Assumptions rewrite_unchanged.
+
+(* 10. the fuel of the model's tokenizer and reader is always sufficient: OutOfFuel is never an outcome *)
+Theorem parse_never_out_of_fuel : forall data, parse data <> Err OutOfFuel.
+Proof. exact ProofsFuel.parse_total. Qed.
+Print Assumptions parse_never_out_of_fuel.
+
+(* ------------------------------------------------------------------ the guards are needed *)
+(* finding F-C18-2: indented layout, a List starting with a Dict and holding a number: "\t>>5" is one unknown
+   token, the text cannot be read back; with a Float / String / Property / Tag item write() raises TypeError *)
+Theorem mixed_list_refuted : exists d bs,
+  wf_tree (TDict d) = true /\ lists_ok (Some O) (TDict d) = false /\
+  write Indented d = Ok bs /\ parse bs = Err ValueErr.
+Proof. exists [([97], TList [TDict []; TInt 5])]. eexists. repeat split; vm_compute; reflexivity. Qed.
+Print Assumptions mixed_list_refuted.
+
+Theorem mixed_list_typeerror_refuted : exists d,
+  wf_tree (TDict d) = true /\ lists_ok (Some O) (TDict d) = false /\ write Indented d = Err TypeErr.
+Proof. exists [([97], TList [TDict []; TFloat (Fl false 550000000 false)])]. repeat split. Qed.
+Print Assumptions mixed_list_typeerror_refuted.
+
+(* ... while the same trees round-trip in the compact layout, and with the Dict not in first place *)
+Example mixed_list_compact_ok :
+  (exists bs, write Compact [([97], TList [TDict []; TInt 5])] = Ok bs /\ parse bs = Ok [([97], TList [TDict []; TInt 5])]) /\
+  (exists bs, write Indented [([97], TList [TInt 5; TDict []])] = Ok bs /\ parse bs = Ok [([97], TList [TInt 5; TDict []])]).
+Proof. split; eexists; split; vm_compute; reflexivity. Qed.
+
+(* property names outside [A-Za-z0-9_]+ do not survive: "a b" becomes the key "a" and a stray token *)
+Theorem bad_name_refuted : exists d bs,
+  write Compact d = Ok bs /\ parse bs <> Ok d.
+Proof. exists [([97;32;98], TInt 1)]. eexists. split; [reflexivity|]. vm_compute. discriminate. Qed.
+Print Assumptions bad_name_refuted.
+
+(* a Tag must be one of the two tag token forms: "( )" is read as two tokens *)
+Theorem bad_tag_refuted : exists d bs, write Compact d = Ok bs /\ parse bs <> Ok d.
+Proof. exists [([97], TTag [40;32;41])]. eexists. split; [reflexivity|]. vm_compute. discriminate. Qed.
+Print Assumptions bad_tag_refuted.
+
+(* representation guards of the model (not reachable from Python values): a repeated key, a payload that is not UTF-16 *)
+Theorem dup_key_refuted : exists d bs, write Compact d = Ok bs /\ parse bs <> Ok d.
+Proof. exists [([97], TInt 1); ([97], TInt 2)]. eexists. split; [reflexivity|]. vm_compute. discriminate. Qed.
+Theorem bad_payload_refuted : exists d bs, write Compact d = Ok bs /\ parse bs = Err ValueErr.
+Proof. exists [([97], TStr [0])]. eexists. split; reflexivity. Qed.
